@@ -383,7 +383,7 @@ def _colour(ctx, reqs, pending):
         r = ctx.rng('colour', idx)
         pi = r.choice(['RGB', 'YBR_FULL', 'YBR_FULL_422', 'YBR_FULL_422'])
         ts = r.choice([ExplicitVRLittleEndian, ImplicitVRLittleEndian])
-        n = r.choice([1, 2, 3, 4, 5])
+        n = r.choice([1, 1, 2, 3, 4, 5])
         rows, cols = r.randint(1, 5), 2 * r.randint(1, 4)
         ds = base_dataset(MF_SC_COLOR, ts)
         ds.NumberOfFrames = n
@@ -432,6 +432,23 @@ def _colour(ctx, reqs, pending):
                     reqs.append((fn, {'pd': list(ds.PixelData), 'rows': rows, 'cols': cols, 'samples': 3, 'bits': 8, 'n': n,
                                       'pi': pi, 'k': k, 'as_index': False}))
                     pending.append((case, ('ok', list(rawf)) if st2 == 'ok' else ('err', _err_kind(rawf))))
+            # the same object once its whole pixel array is decoded and cached (single-frame colour images have no
+            # frame axis there: a separate branch)
+            st, whole = _fetch(lambda: im.pixel_array)
+            if st != 'ok' or not np.array_equal(np.asarray(whole).reshape(ref.shape), ref):
+                ctx.fail({'image': d, 'path': name, 'what': 'pixel_array'}, 'colour pixel_array differs from pydicom', site='pixel_array')
+            for as_index in (False, True):
+                for idx in range(n):
+                    k = idx if as_index else idx + 1
+                    ctx.case(path=name + '/colour-cached', photometric=pi, frames=n,
+                             nontrivial_key=('colour-cached', pi, n, name, idx, as_index))
+                    for what, f in (('get_stored_frame', lambda: im.get_stored_frame(k, as_index=as_index)),
+                                    ('get_stored_frames', lambda: im.get_stored_frames([k], as_indices=as_index)[0])):
+                        st, val = _fetch(f)
+                        if st != 'ok' or not np.array_equal(np.asarray(val), ref[idx]):
+                            ctx.fail({'image': d, 'path': name + '/cached', 'k': k, 'as_index': as_index, 'call': what},
+                                     f'cached colour frame differs from pydicom decode: {val if st != "ok" else np.asarray(val).shape}',
+                                     site=what + '/cached')
 
 
 def run(ctx):
